@@ -18,28 +18,69 @@ use crate::{belt_wblock_dec, belt_wblock_enc};
 use refmodels::belt as r;
 
 pub mod wbstep {
-    /// selected round (0 = none: the ranges are the real ones)
+    /// selected round (meaningful while ACTIVE)
     pub static mut START: usize = 0;
     /// set when the selected round is outside the real range of the loop it was offered to
     pub static mut OUTSIDE: bool = false;
+    /// concrete flag: a round is selected (kept apart from the possibly symbolic round number, so that the choice between
+    /// the real range and the single round is decided during symbolic execution)
+    pub static mut ACTIVE: bool = false;
     pub fn select(i: usize) {
         unsafe {
+            ACTIVE = true;
             START = i;
             OUTSIDE = false;
+        }
+    }
+    pub fn clear() {
+        unsafe {
+            ACTIVE = false;
         }
     }
     pub fn outside() -> bool {
         unsafe { OUTSIDE }
     }
-    pub fn range(lo: usize, hi: usize) -> core::ops::Range<usize> {
+    /// Either the real range or exactly one selected value; "exactly one" is structural (a concrete flag), so that
+    /// symbolic execution runs the loop body once instead of unwinding a range with symbolic bounds.
+    pub struct Rounds {
+        real: core::ops::Range<usize>,
+        single: bool,
+        pending: bool,
+        value: usize,
+    }
+    impl Iterator for Rounds {
+        type Item = usize;
+        fn next(&mut self) -> Option<usize> {
+            if self.single {
+                if self.pending {
+                    self.pending = false;
+                    Some(self.value)
+                } else {
+                    None
+                }
+            } else {
+                self.real.next()
+            }
+        }
+    }
+    impl DoubleEndedIterator for Rounds {
+        fn next_back(&mut self) -> Option<usize> {
+            if self.single {
+                self.next()
+            } else {
+                self.real.next_back()
+            }
+        }
+    }
+    pub fn range(lo: usize, hi: usize) -> Rounds {
         let s = unsafe { START };
-        if s == 0 {
-            lo..hi
+        if !unsafe { ACTIVE } {
+            Rounds { real: lo..hi, single: false, pending: false, value: 0 }
         } else {
             if !(lo <= s && s < hi) {
                 unsafe { OUTSIDE = true };
             }
-            s..s + 1
+            Rounds { real: 0..0, single: true, pending: true, value: s }
         }
     }
 }
@@ -107,7 +148,7 @@ fn step_conf<const M: usize>(inp: &[u8], dec: bool) -> Option<bool> {
     let mut buf = data;
     wbstep::select(i0);
     let res = if dec { belt_wblock_dec(&mut buf[..], &key) } else { belt_wblock_enc(&mut buf[..], &key) };
-    wbstep::select(0);
+    wbstep::clear();
     vcheck!(res.is_ok());
     vcheck!(!wbstep::outside());
     let e = if dec { r::wblock_dec_round(&data, M, i0, oe) } else { r::wblock_enc_round(&data, M, i0, oe) };
@@ -122,7 +163,7 @@ fn step_inverse<const M: usize>(inp: &[u8], enc_first: bool) -> Option<bool> {
     wbstep::select(i0);
     let r1 = if enc_first { belt_wblock_enc(&mut buf[..], &key) } else { belt_wblock_dec(&mut buf[..], &key) };
     let r2 = if enc_first { belt_wblock_dec(&mut buf[..], &key) } else { belt_wblock_enc(&mut buf[..], &key) };
-    wbstep::select(0);
+    wbstep::clear();
     vcheck!(r1.is_ok() && r2.is_ok());
     vcheck!(!wbstep::outside());
     Some(eq(&buf, &data))
@@ -137,16 +178,129 @@ macro_rules! step_set {
     };
 }
 
-//@ harness name=wbstep_enc_l2033 prop=C18,C20 tier=quick bits=16536 stub=1 est=300 variants=belt-block:step desc="inductive step, len = 2033 (n = 128, round counter up to 256): ONE round of the real belt_wblock_enc with an arbitrary selected counter i0 in 1..=256 on an arbitrary 2033-octet buffer == oracle round i0 (6.2.3 steps 1-4: block sum, shift, belt-block of the sum, counter as a 128-bit little-endian number); all keys; belt-block under the key uninterpreted; no panic / overflow on the way"
-//@ harness name=wbstep_dec_l2033 prop=C18,C20 tier=quick bits=16536 stub=1 est=300 variants=belt-block:step desc="inductive step, len = 2033: one round of the real belt_wblock_dec, arbitrary counter i0 in 1..=256, arbitrary buffer == oracle round (6.2.4)"
-//@ harness name=wbstep_inv_ed_l2033 prop=C18,C01,C20 tier=quick bits=16536 stub=1 est=300 variants=belt-block:step desc="inductive step, len = 2033: dec round i0 after enc round i0 restores the buffer, arbitrary i0 in 1..=256, arbitrary buffer and key (the compositions are then inverse in this order)"
-//@ harness name=wbstep_inv_de_l2033 prop=C18,C01,C20 tier=quick bits=16536 stub=1 est=300 variants=belt-block:step desc="inductive step, len = 2033: enc round i0 after dec round i0 restores the buffer"
+// ---- long, block-aligned length: 2048 octets = 128 blocks (n = 128, counter up to 256, the same as for 2033..=2047).
+// Two helpers of the crate, `xor` and `xor_set` (sixteen-octet XORs written as iterator chains: ~2 k of them per round at this
+// length, 2.9 M program steps), are replaced by index-loop / u128 transcriptions; `wbstep_leaf_xor` proves the transcriptions
+// equal to the real helpers for all contents and all operand lengths 0..=16.  The oracle is the whole-block form on 128-bit
+// numbers (validated natively against the octet form).
+fn lean_xor(block: [u8; 16], val: &[u8]) -> [u8; 16] {
+    if val.len() >= 16 {
+        let mut v = [0u8; 16];
+        v.copy_from_slice(&val[..16]);
+        (u128::from_le_bytes(block) ^ u128::from_le_bytes(v)).to_le_bytes()
+    } else {
+        let mut b = block;
+        let mut k = 0;
+        while k < val.len() {
+            b[k] ^= val[k];
+            k += 1;
+        }
+        b
+    }
+}
+fn lean_xor_set(block: &mut [u8], val: &[u8]) {
+    let n = if block.len() < val.len() { block.len() } else { val.len() };
+    let mut k = 0;
+    while k < n {
+        block[k] ^= val[k];
+        k += 1;
+    }
+}
+//@ harness name=wbstep_leaf_xor prop=C18,C20 tier=quick bits=400 est=30 variants=belt-block:step desc="leaf lemma for the long-length step harnesses: the crate's private helpers xor(block, val) and xor_set(block, val) equal their index-loop / u128 transcriptions for all contents and every operand length 0..=16 (zip semantics: the shorter operand decides)"
+verif_harness! {
+    name: wbstep_leaf_xor,
+    bytes: 50,
+    unwind: 40,
+    prop: |inp| {
+        let a: [u8; 16] = take(inp, 0);
+        let v: [u8; 16] = take(inp, 16);
+        let la = (inp[48] % 17) as usize;
+        let lv = (inp[49] % 17) as usize;
+        vcheck!(crate::xor(a, &v[..lv]) == lean_xor(a, &v[..lv]));
+        let mut x = a;
+        let mut y = a;
+        crate::xor_set(&mut x[..la], &v[..lv]);
+        lean_xor_set(&mut y[..la], &v[..lv]);
+        Some(x == y)
+    }
+}
+fn words<const M: usize, const N: usize>(b: &[u8; M]) -> [u128; N] {
+    let mut w = [0u128; N];
+    let mut j = 0;
+    while j < N {
+        let mut t = [0u8; 16];
+        t.copy_from_slice(&b[16 * j..16 * j + 16]);
+        w[j] = u128::from_le_bytes(t);
+        j += 1;
+    }
+    w
+}
+fn eqw<const N: usize>(a: &[u128; N], b: &[u128; N]) -> bool {
+    let mut d = 0u128;
+    let mut i = 0;
+    while i < N {
+        d |= a[i] ^ b[i];
+        i += 1;
+    }
+    d == 0
+}
+fn ue(x: u128) -> u128 {
+    uf_e::call(x)
+}
+/// inp = key (32) | selected round (2) | buffer (M = 16 N)
+fn bstep_conf<const M: usize, const N: usize>(inp: &[u8], dec: bool) -> Option<bool> {
+    let key = key_of(inp);
+    let i0 = take_u16(inp, 32) as usize;
+    vassume!(i0 >= 1 && i0 <= 2 * N);
+    let data: [u8; M] = take(inp, 34);
+    let mut buf = data;
+    wbstep::select(i0);
+    let res = if dec { belt_wblock_dec(&mut buf[..], &key) } else { belt_wblock_enc(&mut buf[..], &key) };
+    wbstep::clear();
+    vcheck!(res.is_ok());
+    vcheck!(!wbstep::outside());
+    let w: [u128; N] = words(&data);
+    let e = if dec { r::wblock_dec_round_words(&w, i0, ue) } else { r::wblock_enc_round_words(&w, i0, ue) };
+    Some(eqw(&words::<M, N>(&buf), &e))
+}
+fn bstep_inverse<const M: usize, const N: usize>(inp: &[u8], enc_first: bool) -> Option<bool> {
+    let key = key_of(inp);
+    let i0 = take_u16(inp, 32) as usize;
+    vassume!(i0 >= 1 && i0 <= 2 * N);
+    let data: [u8; M] = take(inp, 34);
+    let mut buf = data;
+    wbstep::select(i0);
+    let r1 = if enc_first { belt_wblock_enc(&mut buf[..], &key) } else { belt_wblock_dec(&mut buf[..], &key) };
+    let r2 = if enc_first { belt_wblock_dec(&mut buf[..], &key) } else { belt_wblock_enc(&mut buf[..], &key) };
+    wbstep::clear();
+    vcheck!(r1.is_ok() && r2.is_ok());
+    vcheck!(!wbstep::outside());
+    Some(eqw(&words::<M, N>(&buf), &words::<M, N>(&data)))
+}
+macro_rules! bstep_set {
+    ($enc:ident, $dec:ident, $ed:ident, $de:ident, $m:expr, $n:expr, $u:expr) => {
+        verif_harness! { name: $enc, bytes: 34 + $m, unwind: $u, stubs: [(crate::belt_block_raw, stub_raw), (crate::xor, lean_xor), (crate::xor_set, lean_xor_set)], prop: |inp| { bstep_conf::<$m, $n>(&inp[..], false) } }
+        verif_harness! { name: $dec, bytes: 34 + $m, unwind: $u, stubs: [(crate::belt_block_raw, stub_raw), (crate::xor, lean_xor), (crate::xor_set, lean_xor_set)], prop: |inp| { bstep_conf::<$m, $n>(&inp[..], true) } }
+        verif_harness! { name: $ed, bytes: 34 + $m, unwind: $u, stubs: [(crate::belt_block_raw, stub_raw), (crate::xor, lean_xor), (crate::xor_set, lean_xor_set)], prop: |inp| { bstep_inverse::<$m, $n>(&inp[..], true) } }
+        verif_harness! { name: $de, bytes: 34 + $m, unwind: $u, stubs: [(crate::belt_block_raw, stub_raw), (crate::xor, lean_xor), (crate::xor_set, lean_xor_set)], prop: |inp| { bstep_inverse::<$m, $n>(&inp[..], false) } }
+    };
+}
+//@ harness name=wbstep_enc_l2048 prop=C18,C20 tier=quick bits=16656 stub=1 est=300 quick=C20 variants=belt-block:step desc="inductive step, len = 2048 (n = 128: the round counter runs to 256 and no longer fits one octet; same n as 2033..=2047): ONE round of the real belt_wblock_enc with an arbitrary selected counter i0 in 1..=256 on an arbitrary 2048-octet buffer == oracle round i0 (6.2.3 steps 1-4 on 128-bit numbers, counter as the number i0); all keys; belt-block under the key uninterpreted; xor / xor_set through their proved transcriptions; no panic / overflow on the way"
+//@ harness name=wbstep_dec_l2048 prop=C18,C20 tier=quick bits=16656 stub=1 est=300 variants=belt-block:step desc="inductive step, len = 2048: one round of the real belt_wblock_dec, arbitrary counter i0 in 1..=256, arbitrary buffer == oracle round (6.2.4)"
+//@ harness name=wbstep_inv_ed_l2048 prop=C18,C01,C20 tier=quick bits=16656 stub=1 est=300 quick=C01 variants=belt-block:step desc="inductive step, len = 2048: dec round i0 after enc round i0 restores the buffer, arbitrary i0 in 1..=256, arbitrary buffer and key (the compositions are then inverse in this order)"
+//@ harness name=wbstep_inv_de_l2048 prop=C18,C01,C20 tier=quick bits=16656 stub=1 est=300 variants=belt-block:step desc="inductive step, len = 2048: enc round i0 after dec round i0 restores the buffer"
+bstep_set!(wbstep_enc_l2048, wbstep_dec_l2048, wbstep_inv_ed_l2048, wbstep_inv_de_l2048, 2048, 128, 2100);
+//@ harness name=wbstep_enc_l4096 prop=C18,C20 tier=thorough bits=33040 stub=1 est=900 mem=30 variants=belt-block:step desc="inductive step, len = 4096 (n = 256, counter up to 512): one enc round, arbitrary counter, == oracle round"
+//@ harness name=wbstep_dec_l4096 prop=C18,C20 tier=thorough bits=33040 stub=1 est=900 mem=30 variants=belt-block:step desc="inductive step, len = 4096: one dec round == oracle round"
+//@ harness name=wbstep_inv_ed_l4096 prop=C18,C01,C20 tier=thorough bits=33040 stub=1 est=900 mem=30 variants=belt-block:step desc="inductive step, len = 4096: dec round after enc round restores the buffer"
+//@ harness name=wbstep_inv_de_l4096 prop=C18,C01,C20 tier=thorough bits=33040 stub=1 est=900 mem=30 variants=belt-block:step desc="inductive step, len = 4096: enc round after dec round restores the buffer"
+bstep_set!(wbstep_enc_l4096, wbstep_dec_l4096, wbstep_inv_ed_l4096, wbstep_inv_de_l4096, 4096, 256, 4200);
+// not block aligned, octet oracle, nothing but belt-block abstracted (thorough: 2.9 M program steps at this length)
+//@ harness name=wbstep_enc_l2033 prop=C18,C20 tier=thorough bits=16536 stub=1 est=1500 mem=30 variants=belt-block:step desc="inductive step, len = 2033 (not a multiple of 16, n = 128): one round of the real belt_wblock_enc, arbitrary counter i0 in 1..=256, arbitrary buffer == octet-level oracle round; only belt-block abstracted"
+//@ harness name=wbstep_dec_l2033 prop=C18,C20 tier=thorough bits=16536 stub=1 est=1500 mem=30 variants=belt-block:step desc="inductive step, len = 2033: one round of the real belt_wblock_dec == octet-level oracle round"
+//@ harness name=wbstep_inv_ed_l2033 prop=C18,C01,C20 tier=thorough bits=16536 stub=1 est=1500 mem=30 variants=belt-block:step desc="inductive step, len = 2033: dec round after enc round restores the buffer"
+//@ harness name=wbstep_inv_de_l2033 prop=C18,C01,C20 tier=thorough bits=16536 stub=1 est=1500 mem=30 variants=belt-block:step desc="inductive step, len = 2033: enc round after dec round restores the buffer"
 step_set!(wbstep_enc_l2033, wbstep_dec_l2033, wbstep_inv_ed_l2033, wbstep_inv_de_l2033, 2033, 2080);
-//@ harness name=wbstep_enc_l2048 prop=C18,C20 tier=thorough bits=16656 stub=1 est=300 variants=belt-block:step desc="inductive step, len = 2048 (a multiple of 16): one enc round, arbitrary counter, == oracle round"
-//@ harness name=wbstep_dec_l2048 prop=C18,C20 tier=thorough bits=16656 stub=1 est=300 variants=belt-block:step desc="inductive step, len = 2048: one dec round == oracle round"
-//@ harness name=wbstep_inv_ed_l2048 prop=C18,C01,C20 tier=thorough bits=16656 stub=1 est=300 variants=belt-block:step desc="inductive step, len = 2048: dec round after enc round restores the buffer"
-//@ harness name=wbstep_inv_de_l2048 prop=C18,C01,C20 tier=thorough bits=16656 stub=1 est=300 variants=belt-block:step desc="inductive step, len = 2048: enc round after dec round restores the buffer"
-step_set!(wbstep_enc_l2048, wbstep_dec_l2048, wbstep_inv_ed_l2048, wbstep_inv_de_l2048, 2048, 2100);
 //@ harness name=wbstep_enc_l100 prop=C18,C20 tier=quick bits=1072 stub=1 est=60 variants=belt-block:step desc="inductive step, len = 100 (not a multiple of 16, n = 7): one enc round, arbitrary counter in 1..=14, == oracle round"
 //@ harness name=wbstep_dec_l100 prop=C18,C20 tier=quick bits=1072 stub=1 est=60 variants=belt-block:step desc="inductive step, len = 100: one dec round == oracle round"
 //@ harness name=wbstep_inv_ed_l100 prop=C18,C01,C20 tier=quick bits=1072 stub=1 est=60 variants=belt-block:step desc="inductive step, len = 100: dec round after enc round restores the buffer"
